@@ -1,6 +1,22 @@
 PROP = dict(
+    gens=[dict(tool="gennorm", out="GenNorm.v", args=["{repo}"])],
     drivers=[dict(cmd="drv-addr", family="addr")],
-    rule="wip",
-    trusted=[],
-    assumptions=[],
+    rule="inputs: listen addresses, 70 % from a grammar (seven schemes in lower/mixed case, unknown / empty / malformed "
+         "schemes, odd separators; hosts: reg-names, IPv4, bracketed IPv6 with and without zones incl. zones made of '%', "
+         "digits and '25', bare IPv6, empty hosts, hosts with '%'; ports present / absent / empty / non-numeric; inet "
+         "addresses with a path; unix paths with '..', '.', '//', trailing slashes, relative paths; userinfo, query, "
+         "fragment) and 30 % byte-level mutations of those (insert / delete / flip / replace / duplicate / truncate with "
+         "'%', '#', '?', '@', '[', ']', ':', control bytes, non-UTF-8) plus pure noise; option values: <=0, 1, 1023, 1024, "
+         "1025, 64Ki+-1, every 2^k and 2^k+-1 up to 2^62, 2^62+1, MaxInt, random magnitudes, through NewClient and "
+         "createListeners; NumEventLoop/Multicore combinations around 0, NumCPU, 256. A case is a batch of inputs, "
+         "non-trivial when it reaches one of the generator / outcome classes; distinct by hash of its op lines",
+    trusted=["translator harness/cmd/gennorm (go/ast -> Gallina for the option-normalisation switches, determineEventLoops, "
+             "the constants and the scheme tables of parseProtoAddr)",
+             "net/url.Parse, path.Join/Clean (Go 1.23.5) are modelled by hand (Model/Addr.v), not verified; the direct "
+             "oracle uses the real url.Parse / path.Join as reference for the classification clause"],
+    assumptions=["the theorems are about a transcription of the Go 1.23.5 net/url and path code restricted to Scheme/Host/Path; "
+                 "a disagreement with the real url.Parse is a correspondence failure that means the model must be repaired",
+                 "MaxStreamBufferCap has its initial value 65536 (it is an exported variable)",
+                 "runtime.NumCPU() >= 1",
+                 "math.CeilToPowerOfTwo as proved in C20 (ceil_spec)"],
 )
